@@ -11,13 +11,16 @@ func applyMatrixSlice(m gf2p16.Matrix, in, out [][]byte, outStart, outEnd, dataS
 		outSlice := out[i][dataStart:dataEnd]
 		c := m.At(i, 0)
 		inSlice := in[0][dataStart:dataEnd]
+		verifStep(i, 0, dataStart, dataEnd)
 		gf2p16.MulByteSliceLE(c, inSlice, outSlice)
 		for j := 1; j < len(in); j++ {
 			c := m.At(i, j)
 			inSlice := in[j][dataStart:dataEnd]
+			verifStep(i, j, dataStart, dataEnd)
 			gf2p16.MulAndAddByteSliceLE(c, inSlice, outSlice)
 		}
 	}
+	verifStep(-1, 0, dataStart, dataEnd)
 }
 
 func applyMatrixSingle(m gf2p16.Matrix, in, out [][]byte) {
